@@ -1124,7 +1124,14 @@ def iter_timestamped_records(record: Record) -> Iterator[Record]:
     record_name = record._desc.name
     original = record
     for field in dt_fields:
-        ts_record = TimestampRecord(getattr(original, field.name), field.name)
+        # the metadata of the original record is kept, TimestampRecord only supplies ``ts`` and ``ts_description``
+        ts_record = TimestampRecord(
+            getattr(original, field.name),
+            field.name,
+            _source=original._source,
+            _classification=original._classification,
+            _generated=original._generated,
+        )
         # we extend ``ts_record`` with original ``record`` so TSRecord info goes first.
         record = extend_record(ts_record, [record], name=record_name)
         yield record
